@@ -334,7 +334,12 @@ def run_episode(
                 for m in monitors:
                     m.on_step(pev)
         ctx.update(ts=ts, state=state, t=t)
-        a = pol(ctx)
+        if after_last > 0 and after_last % 2 == 1:
+            # steps after a LAST: every other one plays any in-spec action (legal or not for the terminal state), the others
+            # continue with the episode's policy
+            a = pol_random(ctx)
+        else:
+            a = pol(ctx)
         s2, ts2 = runner.step(state, a)
         acts.append(np.asarray(a))
         t += 1
